@@ -85,6 +85,9 @@ type FnExec struct {
 	allocName string
 	mode     string // "full" or "safety"
 	mutSlices map[ssa.Value]Val
+	modCache    map[string][]string
+	modCacheAll bool
+	modCacheCon *Contract
 }
 
 func (e *Engine) newFnExec(fn *ssa.Function, con *Contract) *FnExec {
@@ -94,11 +97,7 @@ func (e *Engine) newFnExec(fn *ssa.Function, con *Contract) *FnExec {
 		names: map[string][]ssa.Value{}, epochCtr: &n, uncontracted: map[string]bool{}, usedContracts: map[string]bool{}, params: map[string]Val{},
 		mutSlices: map[ssa.Value]Val{}}
 	fx.entry = Heap{vers: map[string]string{}, epoch: 0}
-	if fn.Object() != nil {
-		fx.key = funcKeyOf(fn.Object().(*types.Func))
-	} else {
-		fx.key = fn.String()
-	}
+	fx.key = keyOfFunction(fn)
 	return fx
 }
 
@@ -208,6 +207,9 @@ func zeroOfSort(s string) string {
 	if strings.HasPrefix(s, "(Array ") {
 		// (Array Int X)
 		inner := strings.TrimSuffix(strings.TrimPrefix(s, "(Array Int "), ")")
+		if inner == "Str" {
+			return "zeroarr_Str"
+		}
 		return fmt.Sprintf("((as const %s) %s)", s, zeroOfSort(inner))
 	}
 	return "0"
@@ -425,7 +427,7 @@ func (fx *FnExec) loadStruct(h *Heap, addr string, t types.Type) Val {
 func (fx *FnExec) subAddr(base string, owner types.Type, idx int) string {
 	tag := fx.e.fieldTag(ownerKey(owner), idx)
 	t := app("sub_addr", base, intLit(int64(tag)))
-	fx.c.assert(sAnd(sEq(app("sub_inv", t), base), sEq(app("sub_tag", t), intLit(int64(tag)))))
+	fx.c.assert(sAnd(sEq(app("sub_inv", t), base), sEq(app("sub_tag", t), intLit(int64(tag))), sImp(app(">", base, "0"), app(">", t, "0"))))
 	if fx.allocName != "" {
 		fx.c.assert(sEq(sLt(t, fx.allocName), sLt(base, fx.allocName)))
 	}
@@ -446,6 +448,23 @@ func (fx *FnExec) loadField(h *Heap, addr string, owner types.Type, idx int) Val
 func (fx *FnExec) storeField(h *Heap, addr string, owner types.Type, idx int, v Val) {
 	st, _ := fx.structOf(owner)
 	f := st.Field(idx)
+	for _, mf := range fx.e.cs.Models {
+		if mf.Field == f.Name() && ownerKey(owner) == shortPkg(mf.PkgPath)+"."+mf.Type {
+			g := fx.e.ghosts[mf.Ghost]
+			sd := fx.e.specs[mf.Fn]
+			if g != nil && sd != nil && len(v.L) >= 1 {
+				fx.useSpec(sd)
+				arg := v.L[0]
+				if isInterface(f.Type()) {
+					arg = v.L[1]
+				} else if isSlice(f.Type()) && len(v.L) >= 3 {
+					arg = app("bytes_str", v.L[2], v.L[1])
+				}
+				gv := fx.heapVar(h, "ghost."+g.Name, g.Sort)
+				fx.heapSet(h, "ghost."+g.Name, g.Sort, sSto(gv, addr, app(smtName(sd.Name), arg)))
+			}
+		}
+	}
 	ls := fx.e.leaves(f.Type())
 	for i, l := range ls {
 		name := fieldHeapName(owner, f, l.Path)
@@ -618,6 +637,11 @@ func (fx *FnExec) alloc(h *Heap) string {
 	r := fx.c.fresh("ref", "Int")
 	fx.c.assert(sAnd(sEq(r, a), app(">", r, "0"), sEq(app("sub_tag", r), "0")))
 	fx.heapSet(h, "$alloc", "Int", sAdd(a, "1"))
+	for _, g := range fx.e.cs.Ghosts {
+		if g.Default != "" && strings.HasPrefix(g.Sort, "(Array Int ") {
+			fx.c.assert(sEq(sSel(fx.heapVar(h, "ghost."+g.Name, g.Sort), r), g.Default))
+		}
+	}
 	return r
 }
 
@@ -924,6 +948,11 @@ func (fx *FnExec) addrMods(addr ssa.Value, mods map[string]bool) bool {
 			mods[n] = true
 			if _, ok := fx.e.heapSort[n]; !ok {
 				fx.e.heapSort[n] = arraySort("Int", l.Sort)
+			}
+		}
+		for _, mf := range fx.e.cs.Models {
+			if mf.Field == f.Name() && ownerKey(owner) == shortPkg(mf.PkgPath)+"."+mf.Type {
+				mods["ghost."+mf.Ghost] = true
 			}
 		}
 		return false
